@@ -303,72 +303,39 @@ Proof.
   - destruct (fire p0 i0); simpl; apply IH; auto.
 Qed.
 
-Lemma online_loop_shape guard ps ivs draws steps outs raised :
+Lemma online_loop_shape ps ivs draws steps :
   length ps = length ivs ->
-  online_loop dec fire renew edef guard ps ivs draws steps = (outs, raised) ->
-  length outs <= steps /\ (raised = false -> length outs = steps) /\
-  Forall (fun row => length row = length ps) outs.
+  length (online_loop dec fire renew edef ps ivs draws steps) = steps /\
+  Forall (fun row => length row = length ps) (online_loop dec fire renew edef ps ivs draws steps).
 Proof.
-  revert ivs draws outs raised; induction steps as [|m IH]; intros ivs draws outs raised Hlen H; simpl in H.
-  - inversion H; subst. repeat split; auto.
-  - destruct (guard _).
-    + destruct (online_loop _ _ _ _ _ _ _ _ m) as [rest r] eqn:Eq. inversion H; subst.
-      apply IH in Eq; [|rewrite refill_length; rewrite ?map_length; auto].
-      destruct Eq as [H1 [H2 H3]]. repeat split; simpl; try lia.
-      * intros Hr. rewrite H2; auto.
-      * constructor; auto. apply fires_length. rewrite map_length; auto.
-    + inversion H; subst. repeat split; simpl; try lia; auto; try discriminate.
-Qed.
-
-Lemma online_loop_total ps ivs draws steps :
-  snd (online_loop dec fire renew edef (fun _ => true) ps ivs draws steps) = false.
-Proof.
-  revert ivs draws; induction steps as [|m IH]; intros; simpl; auto.
-  destruct (online_loop _ _ _ _ _ _ _ _ m) as [rest r] eqn:Eq. simpl.
-  specialize (IH (refill renew edef (map dec ivs) (fires fire ps (map dec ivs)) ps (hd [] draws)) (tl draws)).
-  rewrite Eq in IH. auto.
-Qed.
-
-(* the guarded loop yields a prefix of what the unguarded loop yields; all of it if it does not raise *)
-Lemma online_loop_guard_prefix guard ps ivs draws steps outs raised :
-  online_loop dec fire renew edef guard ps ivs draws steps = (outs, raised) ->
-  exists rest, fst (online_loop dec fire renew edef (fun _ => true) ps ivs draws steps) = outs ++ rest /\
-               (raised = false -> rest = []).
-Proof.
-  revert ivs draws outs raised; induction steps as [|m IH]; intros ivs draws outs raised H; simpl in *.
-  - inversion H; subst. exists []; auto.
-  - destruct (online_loop _ _ _ _ (fun _ => true) _ _ _ m) as [rest1 r1] eqn:Eq1.
-    destruct (guard _).
-    + destruct (online_loop _ _ _ _ guard _ _ _ m) as [rest r] eqn:Eq. inversion H; subst.
-      apply IH in Eq. destruct Eq as [rest2 [Hr Hn]]. rewrite Eq1 in Hr. simpl in Hr. subst.
-      exists rest2. simpl. auto.
-    + inversion H; subst. simpl. eexists; split; eauto. discriminate.
+  revert ivs draws; induction steps as [|m IH]; intros ivs draws Hlen; simpl.
+  - split; auto.
+  - destruct (IH (refill renew edef (map dec ivs) (fires fire ps (map dec ivs)) ps (hd [] draws)) (tl draws))
+      as [H1 H2]; [rewrite refill_length; rewrite ?map_length; auto|].
+    split; [lia|]. constructor; auto. apply fires_length. rewrite map_length; auto.
 Qed.
 
 (* every column of the yielded slices is a trace of the single-element process *)
-Lemma online_loop_column (ok : E -> Prop) guard ps :
+Lemma online_loop_column (ok : E -> Prop) ps :
   ok edef ->
-  forall steps ivs draws outs raised,
+  forall steps ivs draws,
   Forall (Forall ok) draws -> length ps = length ivs ->
-  online_loop dec fire renew edef guard ps ivs draws steps = (outs, raised) ->
   forall j p i, nth_error ps j = Some p -> nth_error ivs j = Some i ->
-    elem_trace dec fire renew ok p i (column false j outs).
+    elem_trace dec fire renew ok p i (column false j (online_loop dec fire renew edef ps ivs draws steps)).
 Proof.
-  intros Hd. induction steps as [|m IH]; intros ivs draws outs raised Hok Hlen H j p i Hp Hi; simpl in H.
-  - inversion H; subst. constructor.
-  - destruct (guard _); [|inversion H; subst; constructor].
-    destruct (online_loop _ _ _ _ _ _ _ _ m) as [rest r] eqn:Eq. inversion H; subst. clear H.
-    assert (Hhd : Forall ok (hd [] draws)) by (destruct draws; simpl; auto; inversion Hok; auto).
+  intros Hd. induction steps as [|m IH]; intros ivs draws Hok Hlen j p i Hp Hi; simpl.
+  - constructor.
+  - assert (Hhd : Forall ok (hd [] draws)) by (destruct draws; simpl; auto; inversion Hok; auto).
     assert (Htl : Forall (Forall ok) (tl draws)) by (destruct draws; simpl; auto; inversion Hok; auto).
     assert (Hi1 : nth_error (map dec ivs) j = Some (dec i)) by (rewrite nth_error_map, Hi; auto).
     destruct (refill_nth_error ok (map dec ivs) ps (hd [] draws) Hd Hhd ltac:(rewrite map_length; auto)
                 j p (dec i) Hp Hi1) as [Hf Hcase].
-    unfold column. simpl. rewrite (nth_error_nth _ _ false Hf).
+    rewrite (nth_error_nth _ _ false Hf).
     assert (Hlen' : length ps = length (refill renew edef (map dec ivs) (fires fire ps (map dec ivs)) ps (hd [] draws)))
       by (rewrite refill_length; rewrite ?map_length; auto).
     destruct Hcase as [[Hq Hn]|[Hs [e [He Hn]]]].
-    + rewrite Hq. apply et_quiet; auto; try (eapply IH; eauto).
-    + rewrite Hs. eapply et_spike; eauto; try (eapply IH; eauto).
+    + rewrite Hq. apply et_quiet; auto; try (apply IH; auto).
+    + rewrite Hs. eapply et_spike; eauto; try (apply IH; auto).
 Qed.
 
 (* an element whose test never succeeds never spikes *)
